@@ -398,6 +398,15 @@ func specs(tier string) []FileSpec {
 			}
 		}
 	}
+	// names whose concatenation with '_' splits ambiguously: Foo + Bar_M  vs  Foo_Bar + M (also a
+	// digit after the underscore); the generated identifiers of the two must stay distinct
+	for _, amb := range [][4]string{{"Foo", "Bar_M", "Foo_Bar", "M"}, {"S", "V2_Get", "S_V2", "Get"}} {
+		for _, sh := range shapes {
+			a := ServiceSpec{Name: amb[0], Methods: []MethodSpec{{amb[1], sh[0], sh[1]}}}
+			b := ServiceSpec{Name: amb[2], Methods: []MethodSpec{{amb[3], sh[0], sh[1]}}}
+			out = append(out, FileSpec{Pkg: "amb", Services: []ServiceSpec{a, b}}, FileSpec{Pkg: "amb", Services: []ServiceSpec{b, a}})
+		}
+	}
 	return out
 }
 
